@@ -258,7 +258,8 @@ async def scenario(env: Any, case: Dict[str, Any]) -> Any:
         return {"conn": conn}
     if proto == "h2":
         conn = env.connect(alpn="h2", tls=True)
-        client = H2Client(conn)
+        # SETTINGS_ENABLE_PUSH = 0: a push the application asks for is then dropped silently
+        client = H2Client(conn, {2: 0} if case.get("no_push") else None)
         client.start()
         await env.settle0()
         client.pump()
@@ -318,6 +319,9 @@ def judge(case: Dict[str, Any], obs: Any) -> Dict[str, Any]:
     if len(mine) != 1 or any(i.scope.get("path") != "/pushed" for i in others):
         raise Violation("instance_count", f"{[i.scope.get('path') for i in obs.instances]}",
                         backend=be)
+    if case.get("no_push") and others:
+        raise Violation("push_to_client_that_disabled_it", f"{len(others)} pushed requests "
+                        f"started although the client sent SETTINGS_ENABLE_PUSH = 0", backend=be)
     inst = mine[0]
     sends = inst.sends
     if len(sends) != len(case["seq"]) or any("outcome" not in s for s in sends):
@@ -414,6 +418,8 @@ def run_case(case: Dict[str, Any]) -> CaseInfo:
     table = WS_MSGS if case["proto"].startswith("ws") else HTTP_MSGS
     ctl = any(has_ctl(table[n]) for n in case["seq"])
     classes = ["proto=" + case["proto"], f"len={len(case['seq'])}"]
+    if case.get("no_push"):
+        classes.append("client_disabled_push")
     if ctl:
         classes.append("control_char")
     if info.get("interesting"):
@@ -425,7 +431,8 @@ def run_case(case: Dict[str, Any]) -> CaseInfo:
 def case_strategy(draw: Any, proto: str) -> Dict[str, Any]:
     names = sorted(WS_MSGS if proto.startswith("ws") else HTTP_MSGS)
     return {"proto": proto, "sched": draw(st.integers(0, 999)),
-            "seq": draw(st.lists(st.sampled_from(names), min_size=1, max_size=6))}
+            "seq": draw(st.lists(st.sampled_from(names), min_size=1, max_size=6)),
+            "no_push": draw(st.sampled_from([False, False, True])) if proto == "h2" else False}
 
 
 def enumerate_short(tier: str) -> Any:
@@ -463,7 +470,8 @@ def guided_strategy(draw: Any, proto: str) -> Dict[str, Any]:
             if nstate == "?":
                 break  # the model cannot follow any further
             state = nstate
-    return {"proto": proto, "sched": draw(st.integers(0, 999)), "seq": seq}
+    return {"proto": proto, "sched": draw(st.integers(0, 999)), "seq": seq,
+            "no_push": draw(st.sampled_from([False, False, True])) if proto == "h2" else False}
 
 
 def parts() -> List[Part]:
